@@ -234,7 +234,41 @@ func (ns *normState) unknownCallees() map[types.Object]*inlCallee {
 					continue
 				}
 				if sig.Recv() != nil && ifaceMeth[fn.Name()] {
-					continue
+					// possibly reached by dynamic dispatch — only if the receiver's type implements a module interface
+					// that declares a method of this name
+					dyn := false
+					rt := sig.Recv().Type()
+					for _, pk2 := range ns.pkgs {
+						sc := pk2.Types.Scope()
+						for _, n := range sc.Names() {
+							tn, ok := sc.Lookup(n).(*types.TypeName)
+							if !ok {
+								continue
+							}
+							it, ok := tn.Type().Underlying().(*types.Interface)
+							if !ok {
+								continue
+							}
+							has := false
+							for i := 0; i < it.NumMethods(); i++ {
+								if it.Method(i).Name() == fn.Name() {
+									has = true
+								}
+							}
+							if !has {
+								continue
+							}
+							if types.Implements(rt, it) {
+								dyn = true
+							}
+							if _, isPtr := rt.(*types.Pointer); !isPtr && types.Implements(types.NewPointer(rt), it) {
+								dyn = true
+							}
+						}
+					}
+					if dyn {
+						continue
+					}
 				}
 				c := &inlCallee{obj: fn, sig: sig, decl: fd, pk: pk, file: file}
 				if !ns.bodyInlinable(c) {
